@@ -8,6 +8,9 @@ CONSTANTS MaxItems = 2
  Budget = 1
  IdOffs <- IdOffs3
  Rules = {"assume", "implies_intr", "substitution", "sorry", "subproof"}
+ ArgKinds = {}
+ ArityOffs <- ArityOffs1
+ MaxAlias = 0
  Emit = FALSE
 INVARIANT RefSound
 INVARIANT RefGapFree
